@@ -54,7 +54,7 @@ mod verif_find_priv {
     }
     // C01: msgPrivacyParameters of any length (the sender chooses it) never makes decrypt panic
     #[test]
-    fn finder_privacy_salt_lengths() {
+    fn finder_salt_lengths_never_panic() {
         for alg in [1u8, 2] {
             let mut key = PrivKey::new(alg).unwrap();
             key.as_localized(&KUL).unwrap();
